@@ -24,7 +24,17 @@ Status of the property (see the witnesses in section 5):
   (`Model/Types.lean`), now all on; the witnesses of section 5 stay as theorems about the
   switched-off settings, `stmts_accept_iff_welltyped_for_cfg` is the equivalence for every
   setting, and `stmts_accept_iff_welltyped_status` decides the full statement for whatever
-  `codeCfg` is.
+  `codeCfg` is;
+* the language of the theorems is the whole expression language of `check_expr` (section 1b:
+  difficulty switches, `++` / `--`, enum constants, label properties, pseudo-arguments, calls of
+  user-defined functions) and multi-variable declarations / const items, `return` at any depth
+  (section 3b); all theorems of sections 1 and 3 keep their statements.  Two statements are FALSE
+  of the code as it is, each decided by a `_status` theorem over a switch of the model and
+  replayed on the CLI (open findings): `compute_ty` disagrees with `check_expr` on a qualified
+  constant of the string enum `EclSubName`, so the `debug_assert_eq!` of `check_expr` fires there
+  and only there (section 2); `++` / `--` on a constant is accepted (section 4c);
+* static type = dynamic type is stated for `evalT`, the evaluator of the whole language; on the
+  fragment of the C11 model it is the C11 evaluator (`type_preservation_vm`, `evalT_eq_eval`).
 -/
 namespace TruthModel.C09
 open TruthModel TruthModel.Types
@@ -56,7 +66,7 @@ theorem exΓ_sigsOk : SigsOk exΓ := by
 system with the same type. -/
 theorem check_sound (Γ : Ctx) (hΓ : SigsOk Γ) (e : TExpr) (t : ETy)
     (h : check Γ e = .ok t) : HasType Γ e t :=
-  (check_sound_aux Γ hΓ e t h).1
+  check_sound_aux Γ hΓ e t h
 
 /-- Completeness: every typable expression is accepted, with the derived type. -/
 theorem check_complete (Γ : Ctx) (hΓ : SigsOk Γ) (e : TExpr) (t : ETy)
@@ -89,22 +99,129 @@ example : check exΓ
 example : HasType exΓ (.binop .lt (.reg 5 none) (.litF 0)) (.value .int) :=
   .binop (t := .float) ⟨Or.inr rfl, rfl⟩ (.reg rfl) (.litF 0)
 
-/-! ## 2. `compute_ty` agrees with `check_expr`: the `debug_assert_eq!` cannot fire -/
+/-! ### 1b. The constructs added later: difficulty switches, `++` / `--`, enum constants, label
+properties, pseudo-arguments, calls of user-defined functions
 
-/-- For every accepted expression the cheap re-computation returns the checked type.  (No
-hypothesis on the context.) -/
-theorem computeTy_agrees (Γ : Ctx) (e : TExpr) (t : ETy) (h : check Γ e = .ok t) :
+`exΓ2`: `exΓ` plus a string enum (number 1; enum 0 is an int enum), the user functions
+`int fn0(int, float)`, `void fn1()`, `float fn2(var)`. -/
+
+def exΓ2 : Ctx := { exΓ with
+  enumStr := fun en => en = 1
+  fsig := fun f => if f = 0 then ([.typed .int, .typed .float], .value .int)
+    else if f = 1 then ([], .void) else ([.untyped], .value .float) }
+
+theorem exΓ2_sigsOk : SigsOk exΓ2 := exΓ_sigsOk
+
+/-- an instruction call without pseudo-arguments is the general call with none -/
+theorem call_eq_callx (Γ : Ctx) (f : Nat) (args : TArgs) :
+    check Γ (.callx false f .nil args) = check Γ (.call f args) ∧
+      computeTy Γ (.callx false f .nil args) = computeTy Γ (.call f args) := by
+  constructor
+  · simp only [check, checkPseudos, TPseudos.isNil, TPseudos.hasBlob, Ctx.calleeSig]
+    cases Γ.sig f <;> simp
+  · simp only [computeTy, TPseudos.hasBlob, Ctx.calleeSig]
+    cases Γ.sig f <;> simp
+
+-- `ins_0(($REG[0] : : 2 : fn0(1, 2.0)), (1.5 : %REG[1]))`: blank case, nested user call
+example : check exΓ2
+    (.call 0 (.cons (.diffSwitch (.reg 0 (some .int)) (.blank (.case (.litI 2)
+        (.case (.callx true 0 .nil (.cons (.litI 1) (.cons (.litF 0x40000000) .nil))) .nil))))
+      (.cons (.diffSwitch (.litF 0x3fc00000) (.case (.reg 1 (some .float)) .nil)) .nil)))
+    = .ok .void := by decide
+-- one float case in the int switch (third position, after a blank): rejected
+example : check exΓ2
+    (.diffSwitch (.reg 0 (some .int)) (.blank (.case (.litF 0x40000000) .nil))) = .err tyErr := by
+  decide
+example : HasType exΓ2 (.diffSwitch (.litI 1) (.blank (.case (.reg 0 none) .nil))) (.value .int) :=
+  .diffSwitch (.litI 1) (.blank (.case (.reg rfl) .nil))
+-- `$REG[0]++` is an int, `REG[4]--` (a float register) and `%REG[0]++` are rejected
+example : check exΓ2 (.xcrement false true ⟨true, 0, some .int⟩) = .ok (.value .int) := by decide
+example : check exΓ2 (.xcrement false false ⟨true, 4, none⟩) = .err tyErr := by decide
+example : check exΓ2 (.xcrement true true ⟨true, 0, some .float⟩) = .err tyErr := by decide
+example : check exΓ2 (.xcrement true true ⟨true, 9, none⟩) = .err prefixErr := by decide
+-- enum constants have the type of their enum, label properties are ints
+example : check exΓ2 (.binop .add (.enumConst 0 3) (.labelProp 1)) = .ok (.value .int) := by decide
+example : check exΓ2 (.enumConst 1 0) = .ok (.value .str) := by decide
+-- pseudo-arguments: `ins_0(@mask=1 + 1, 2, 1.0)`, `ins_5(@blob="00")` (no signature needed),
+-- `@blob` with a normal argument, a float mask, a string that is not one, a pseudo-argument on a
+-- user function
+example : check exΓ2 (.callx false 0 (.cons .mask (.binop .add (.litI 1) (.litI 1)) .nil)
+    (.cons (.litI 2) (.cons (.litF 0x3f800000) .nil))) = .ok .void := by decide
+example : check exΓ2 (.callx false 5 (.cons .blob (.litS "00") .nil) .nil) = .ok .void := by decide
+example : check exΓ2 (.callx false 0 (.cons .blob (.litS "00") .nil) (.cons (.litI 2) .nil))
+    = .err blobArgsErr := by decide
+example : check exΓ2 (.callx false 0 (.cons .mask (.litF 0) .nil)
+    (.cons (.litI 2) (.cons (.litF 0x3f800000) .nil))) = .err tyErr := by decide
+example : check exΓ2 (.callx false 0 (.cons .blob (.litI 0) .nil) .nil) = .err tyErr := by decide
+example : check exΓ2 (.callx true 1 (.cons .mask (.litI 1) .nil) .nil) = .err pseudoCallErr := by
+  decide
+-- user functions: value-returning call as an operand; arity; parameter type; `var` parameter
+example : check exΓ2 (.binop .mul (.callx true 0 .nil (.cons (.litI 1) (.cons (.litF 0) .nil)))
+    (.litI 2)) = .ok (.value .int) := by decide
+example : check exΓ2 (.callx true 0 .nil (.cons (.litI 1) .nil)) = .err arityErr := by decide
+example : check exΓ2 (.callx true 0 .nil (.cons (.litI 1) (.cons (.litI 0) .nil))) = .err tyErr := by
+  decide
+example : check exΓ2 (.callx true 2 .nil (.cons (.litS "a") .nil)) = .ok (.value .float) := by decide
+example : HasType exΓ2 (.callx true 2 .nil (.cons (.litS "a") .nil)) (.value .float) :=
+  .callUser (f := 2) (.cons (.litS "a") (Or.inl rfl) .nil)
+
+/-! ## 2. `compute_ty` agrees with `check_expr`: when the `debug_assert_eq!` can fire -/
+
+/-- The statement one wants: for every accepted expression the cheap re-computation returns the
+checked type.  FALSE of the code as it is (`computeTy_disagrees_on_string_enum`): `compute_ty`
+answers `Int` for every qualified enum constant, `check_expr` answers the enum's type, and the
+built-in enum `EclSubName` (the names of the subs of a TH10+ ECL file) is a string enum. -/
+def computeTy_agrees_full : Prop :=
+  ∀ (Γ : Ctx) (e : TExpr) (t : ETy), check Γ e = .ok t → computeTy Γ e = .ok t
+
+/-- For every accepted expression in which no qualified constant of a string enum occurs (or for
+every accepted expression, once `compute_ty` asks `enum_ty`) the cheap re-computation returns the
+checked type.  (No hypothesis on the signatures.) -/
+theorem computeTy_agrees (Γ : Ctx) (e : TExpr) (t : ETy) (h : check Γ e = .ok t)
+    (hE : computeTyEnumIsInt = false ∨ NoStrEnumConst Γ e) :
     computeTy Γ e = .ok t :=
-  computeTy_of_check Γ e t h
+  computeTy_of_check Γ e t h hE
+
+/-- ... and for every accepted expression whose type is not `string`, whatever occurs in it -/
+theorem computeTy_agrees_nonstring (Γ : Ctx) (e : TExpr) (t : ETy) (h : check Γ e = .ok t)
+    (ht : t ≠ .value .str) : computeTy Γ e = .ok t :=
+  computeTy_of_check_gen Γ e t h (Or.inr ht)
 
 /-- `check_expr` evaluates `debug_assert_eq!(out, expr.compute_ty(ctx))` at every node it
 returns `Ok(out)` from.  When the whole expression is accepted, every subexpression (also call
-arguments) was accepted, and at each of them both sides of the assertion are equal. -/
-theorem debug_assert_never_fires (Γ : Ctx) (e : TExpr) (t : ETy) (h : check Γ e = .ok t) :
+arguments, switch cases, pseudo-argument values) was accepted, and at each of them both sides of
+the assertion are equal — provided no qualified constant of a string enum occurs. -/
+theorem debug_assert_never_fires (Γ : Ctx) (e : TExpr) (t : ETy) (h : check Γ e = .ok t)
+    (hE : computeTyEnumIsInt = false ∨ NoStrEnumConst Γ e) :
     ∀ e' ∈ subsE e, ∃ t', check Γ e' = .ok t' ∧ computeTy Γ e' = .ok t' := by
   intro e' he'
   obtain ⟨t', ht'⟩ := subs_accepted Γ e t h e' he'
-  exact ⟨t', ht', computeTy_of_check Γ e' t' ht'⟩
+  exact ⟨t', ht', computeTy_of_check Γ e' t' ht' (EnumOk.of_mem hE he')⟩
+
+/-- `EclSubName.foo` (enum 1 of `exΓ2` is a string enum): accepted with type string, but
+`compute_ty` says int: the `debug_assert_eq!` at the end of `check_expr` fires in a build with
+debug assertions, and every later `compute_ty` of a release build works with the wrong type.
+Replayed on the CLI: `truecl compile -g 10` of `void foo() { ins_11(EclSubName.foo); }` panics at
+src/passes/type_check.rs:425 (`left: Value(String) right: Value(Int)`). -/
+theorem computeTy_disagrees_on_string_enum (h : computeTyEnumIsInt = true) :
+    check exΓ2 (.enumConst 1 0) = .ok (.value .str) ∧
+      computeTy exΓ2 (.enumConst 1 0) = .ok (.value .int) := by
+  constructor
+  · decide
+  · simp [computeTy, h]
+
+/-- the agreement statement is decided for the code as it is, whatever the switch is set to -/
+theorem computeTy_agrees_status :
+    if computeTyEnumIsInt then ¬ computeTy_agrees_full else computeTy_agrees_full := by
+  split
+  · rename_i h
+    intro hfull
+    have := computeTy_disagrees_on_string_enum h
+    rw [hfull _ _ _ this.1] at this
+    exact absurd this.2 (by decide)
+  · rename_i h
+    intro Γ e t hc
+    exact computeTy_of_check Γ e t hc (Or.inl (by simpa using h))
 
 /-- ... and on rejected expressions nothing panics either: the checker itself (including the
 `expect`s of `compute_ty` it reaches) has no panic outcome on any expression. -/
@@ -135,9 +252,10 @@ theorem stmts_accept_iff_welltyped_for_cfg (cfg : Cfg) (Γ : Ctx) (hΓ : SigsOk 
 
 mutual
 theorem covered_fixed (Γ : Ctx) : (s : Stmt) → Covered fixedCfg Γ s
-  | .exprStmt _ | .assign _ _ _ | .decl _ _ | .condJump _ | .inert | .ret _ => by
+  | .exprStmt _ | .assign _ _ _ | .decl _ _ | .condJump _ | .inert | .ret _ | .decls _ => by
     simp [Covered]
-  | .constDecl _ _ | .interruptLabel _ | .relTimeLabel _ => by simp [Covered, fixedCfg]
+  | .constDecl _ _ | .interruptLabel _ | .relTimeLabel _ | .constDecls _ => by
+    simp [Covered, fixedCfg]
   | .ite _ t e => by simp only [Covered]; exact ⟨coveredS_fixed Γ t, coveredS_fixed Γ e⟩
   | .while_ _ b | .doWhile _ b | .loop b | .times _ _ b | .func _ b | .script b => by
     simp only [Covered]; exact coveredS_fixed Γ b
@@ -173,6 +291,9 @@ def LabelsConstsHarmless (cfg : Cfg) (Γ : Ctx) : Stmt → Prop
   | .condJump _ => True
   | .inert => True
   | .ret _ => True
+  | .decls _ => True
+  | .constDecls ds => cfg.checksConstDeclTy = true ∨
+      ∀ p ∈ ds, ∃ t, litTy p.2 = some t ∧ Γ.varTy p.1 = .typed t
 def LabelsConstsHarmlessS (cfg : Cfg) (Γ : Ctx) : Stmts → Prop
   | .nil => True
   | .cons s ss => LabelsConstsHarmless cfg Γ s ∧ LabelsConstsHarmlessS cfg Γ ss
@@ -181,9 +302,10 @@ end
 mutual
 theorem covered_of_blocks_walked (cfg : Cfg) (hb : cfg.walksFreeBlocks = true) (Γ : Ctx) :
     (s : Stmt) → LabelsConstsHarmless cfg Γ s → Covered cfg Γ s
-  | .exprStmt _, _ | .assign _ _ _, _ | .decl _ _, _ | .condJump _, _ | .inert, _ | .ret _, _ => by
+  | .exprStmt _, _ | .assign _ _ _, _ | .decl _ _, _ | .condJump _, _ | .inert, _ | .ret _, _
+  | .decls _, _ => by
     simp [Covered]
-  | .constDecl _ _, h | .interruptLabel _, h | .relTimeLabel _, h => by
+  | .constDecl _ _, h | .interruptLabel _, h | .relTimeLabel _, h | .constDecls _, h => by
     simpa [Covered, LabelsConstsHarmless] using h
   | .ite _ t e, h => by
     simp only [LabelsConstsHarmless] at h
@@ -243,6 +365,84 @@ example : WellTypedStmts exΓ none exProgram :=
   (stmts_accept_iff_welltyped_for_cfg codeCfg exΓ exΓ_sigsOk none exProgram
     (by simp [exProgram, CoveredS, Covered])).mp (by decide)
 
+/-! ### 3b. Multi-variable declarations, `return` at any depth, functions with parameters -/
+
+/-- `T a = e1, b, c = e3;` is checked like `T a = e1; T b; T c = e3;` (every variable is examined,
+the first diagnostic is the one of the first failing variable) -/
+theorem decls_eq_sequence (cfg : Cfg) (Γ : Ctx) (ρ : Option ETy) :
+    (ds : List (Nat × Option TExpr)) → (rest : Stmts) →
+    checkStmts cfg Γ ρ (.cons (.decls ds) rest) =
+      checkStmts cfg Γ ρ (ds.foldr (fun d acc => .cons (.decl d.1 d.2) acc) rest)
+  | [], rest => by
+    simp only [checkStmts, checkStmt, checkDecls, List.foldr]
+    cases checkStmts cfg Γ ρ rest <;> rfl
+  | (x, init) :: ds, rest => by
+    have ih := decls_eq_sequence cfg Γ ρ ds rest
+    simp only [checkStmts, checkStmt, checkDecls, List.foldr] at ih ⊢
+    rw [← ih]
+    cases checkDecl Γ x init <;> cases checkDecls Γ ds <;> cases checkStmts cfg Γ ρ rest <;> rfl
+
+/-- a tower of `n` free blocks / loops / conditionals around `return e;` -/
+def wrapRet (e : Option TExpr) : Nat → Stmts
+  | 0 => .cons (.ret e) .nil
+  | k + 1 =>
+    if k % 3 = 0 then .cons (.block (wrapRet e k)) .nil
+    else if k % 3 = 1 then .cons (.loop (wrapRet e k)) .nil
+    else .cons (.ite (.litI 1) (wrapRet e k) .nil) .nil
+
+theorem wellTyped_wrapRet (Γ : Ctx) (ρ : Option ETy) (e : Option TExpr) :
+    (n : Nat) → (WellTypedStmts Γ ρ (wrapRet e n) ↔ WellTypedStmt Γ ρ (.ret e))
+  | 0 => by simp only [wrapRet, WellTypedStmts, and_true]
+  | k + 1 => by
+    have ih := wellTyped_wrapRet Γ ρ e k
+    generalize WellTypedStmt Γ ρ (.ret e) = P at ih ⊢
+    simp only [wrapRet]
+    split
+    · simpa only [WellTypedStmts, WellTypedStmt, and_true] using ih
+    · split
+      · simpa only [WellTypedStmts, WellTypedStmt, and_true] using ih
+      · simp only [WellTypedStmts, WellTypedStmt, and_true]
+        constructor
+        · intro h; exact ih.mp h.2
+        · intro h; exact ⟨.litI 1, ih.mpr h⟩
+
+/-- a `return` is checked against the enclosing function wherever it sits: inside free blocks,
+loops and conditionals nested to any depth -/
+theorem return_checked_at_every_depth (Γ : Ctx) (hΓ : SigsOk Γ) (rt : ETy) (e : Option TExpr)
+    (depth : Nat) :
+    checkStmts codeCfg Γ none (.cons (.func rt (wrapRet e depth)) .nil) = .ok () ↔
+      WellTypedStmt Γ (some rt) (.ret e) := by
+  rw [stmts_accept_iff_welltyped Γ hΓ, ← wellTyped_wrapRet Γ (some rt) e depth]
+  simp only [WellTypedStmts, WellTypedStmt, and_true]
+
+-- `inline int fn0(int v0, float v1) { float v3 = v1, v4, v5 = fn0(v0, 1.5) : 2 ...` :
+--   func int { float v1' .. }  with variables 0 int, 1 float
+-- `int fn0(int v0, float v1) { if (v0) { loop { return fn0(v0--, (v1 : : 2.0)) + En0.c; } } return 1; }`
+def exFuncProgram : Stmts :=
+  .cons (.func (.value .int)
+    (.cons (.decls [(1, some (.var 1 none)), (1, none)])
+    (.cons (.ite (.var 0 none)
+      (.cons (.loop (.cons (.ret (some (.binop .add
+        (.callx true 0 .nil (.cons (.xcrement false false ⟨false, 0, none⟩)
+          (.cons (.diffSwitch (.var 1 none) (.blank (.case (.litF 0x40000000) .nil))) .nil)))
+        (.enumConst 0 3)))) .nil)) .nil) .nil)
+    (.cons (.ret (some (.litI 1))) .nil)))) .nil
+
+example : checkStmts codeCfg exΓ2 none exFuncProgram = .ok () := by decide
+example : WellTypedStmts exΓ2 none exFuncProgram :=
+  (stmts_accept_iff_welltyped exΓ2 exΓ2_sigsOk none exFuncProgram).mp (by decide)
+-- a float in the second declarator of `float v1 = v1, v1 = 1;`, `return 1.5;` three levels deep in
+-- an int function, `const int a = 1, b = 2.0;`: rejected
+example : checkStmts codeCfg exΓ2 none (.cons (.script (.cons
+    (.decls [(1, some (.litF 0)), (1, some (.litI 1))]) .nil)) .nil) = .err tyErr := by decide
+example : checkStmts codeCfg exΓ2 none (.cons (.func (.value .int) (.cons (.block (.cons (.loop
+    (.cons (.block (.cons (.ret (some (.litF 0x3fc00000))) .nil)) .nil)) .nil)) .nil)) .nil)
+    = .err tyErr := by decide
+example : checkStmts codeCfg exΓ2 none (.cons (.constDecls [(0, .litI 1), (0, .litF 0x40000000)]) .nil)
+    = .err tyErr := by decide
+example : checkStmts codeCfg exΓ2 none (.cons (.constDecls [(0, .litI 1), (0, .labelProp 2)]) .nil)
+    = .ok () := by decide
+
 -- free blocks nested three deep around an ill-typed assignment: rejected iff blocks are walked
 def exNestedBlocks : Stmts :=
   .cons (.script (.cons (.block (.cons (.times none (.litI 2) (.cons (.block (.cons (.block
@@ -255,28 +455,45 @@ example : LabelsConstsHarmlessS codeCfg exΓ exNestedBlocks := by
 
 /-! ## 4. Static type = dynamic type -/
 
-/-- If `e` has static type `t`, it is an expression of the VM (no calls), and whenever the VM
-(`eval` of the C11 model, any float semantics `F`) returns a value for it under an environment
-that respects the declared types, that value has type `t`. -/
+/-- If `e` has static type `t`, then whenever the evaluator of the whole expression language
+(`evalT`: the VM model of C11 extended with difficulty switches and `++` / `--` as `AstVm::eval`
+has them, enum constants and label properties as the values the compiler substitutes; any float
+semantics `F`, any difficulty) returns a value for it under an environment that respects the
+declared types, that value has type `t`. -/
 theorem type_preservation (F : FloatOps) (Γ : Ctx) (cs : Consts) (env : Env)
-    (hE : EnvOk Γ cs env) (e : TExpr) (t : Ty) (h : HasType Γ e (.value t)) :
-    ∃ e', e.erase = some e' ∧ ∀ v, eval F cs env e' = .ok v → v.ty = t := by
-  obtain ⟨e', he', hty, _⟩ := preservation_aux F Γ cs env hE e t h
-  exact ⟨e', he', hty⟩
+    (hE : EnvOk Γ cs env) (x : XEnv) (hX : XEnvOk Γ x) (e : TExpr) (t : Ty)
+    (h : HasType Γ e (.value t)) :
+    ∀ v, evalT F cs env x e = .ok v → v.ty = t :=
+  (preservationT_aux F Γ cs env hE x hX e t h).1
+
+/-- the C11 form (the statement as it was before the language grew): if `e` is an expression of
+the VM model of C11 (`erase`: literals, variables, operators, ternaries), `eval` returns only
+values of the static type.  `evalT` and `eval` coincide there (`evalT_erase`). -/
+theorem type_preservation_vm (F : FloatOps) (Γ : Ctx) (cs : Consts) (env : Env)
+    (hE : EnvOk Γ cs env) (e : TExpr) (t : Ty) (h : HasType Γ e (.value t))
+    (e' : Expr) (he : e.erase = some e') :
+    ∀ v, eval F cs env e' = .ok v → v.ty = t :=
+  (preservation_aux F Γ cs env hE e t h e' he).1
+
+theorem evalT_eq_eval (F : FloatOps) (cs : Consts) (env : Env) (x : XEnv) (e : TExpr) (e' : Expr)
+    (he : e.erase = some e') : evalT F cs env x e = eval F cs env e' :=
+  evalT_erase F cs env x e e' he
 
 /-- the same for what the CHECKER assigns (accepted expressions) -/
 theorem checked_type_is_dynamic_type (F : FloatOps) (Γ : Ctx) (hΓ : SigsOk Γ) (cs : Consts)
-    (env : Env) (hE : EnvOk Γ cs env) (e : TExpr) (t : Ty) (h : check Γ e = .ok (.value t)) :
-    ∃ e', e.erase = some e' ∧ ∀ v, eval F cs env e' = .ok v → v.ty = t :=
-  type_preservation F Γ cs env hE e t (check_sound Γ hΓ e _ h)
+    (env : Env) (hE : EnvOk Γ cs env) (x : XEnv) (hX : XEnvOk Γ x) (e : TExpr) (t : Ty)
+    (h : check Γ e = .ok (.value t)) :
+    ∀ v, evalT F cs env x e = .ok v → v.ty = t :=
+  type_preservation F Γ cs env hE x hX e t (check_sound Γ hΓ e _ h)
 
 /-- and evaluation of a well-typed expression never reaches one of the VM's / folder's
-"type_check should fail..." panics (progress half of type safety; `err` = division by zero). -/
+"type_check should fail..." panics (progress half of type safety; `err` = division by zero, a
+difficulty without a case, a call). -/
 theorem welltyped_eval_never_panics (F : FloatOps) (Γ : Ctx) (cs : Consts) (env : Env)
-    (hE : EnvOk Γ cs env) (e : TExpr) (t : Ty) (h : HasType Γ e (.value t)) :
-    ∃ e', e.erase = some e' ∧ ∀ s, eval F cs env e' ≠ .panic s := by
-  obtain ⟨e', he', _, hnp⟩ := preservation_aux F Γ cs env hE e t h
-  exact ⟨e', he', hnp⟩
+    (hE : EnvOk Γ cs env) (x : XEnv) (hX : XEnvOk Γ x) (e : TExpr) (t : Ty)
+    (h : HasType Γ e (.value t)) :
+    ∀ s, evalT F cs env x e ≠ .panic s :=
+  (preservationT_aux F Γ cs env hE x hX e t h).2
 
 /-- an environment for `exΓ`: the hypotheses of the theorems above are satisfiable -/
 def exEnv : Env where
@@ -318,6 +535,25 @@ example : EnvOk exΓ (fun _ => none) exEnv where
           · cases h
     | some s => cases s <;> simp_all [ReadTy, exEnv, Value.ty, sigilTy]
 
+/-- some float semantics (the examples below use no float operation) -/
+def exF : FloatOps := ⟨fun a _ => a, fun a _ => a, fun a _ => a, fun a _ => a, fun a _ => a, id,
+  fun _ _ => false, fun _ _ => false, fun _ _ => false, fun _ => 0, fun _ => 0, fun _ x => x⟩
+
+/-- run-time values of the additional constructs for `exΓ2` (difficulty 2) -/
+def exXEnv : XEnv := ⟨2, fun en _ => if en = 1 then .str "sub" else .int 7, fun _ => 40⟩
+
+example : XEnvOk exΓ2 exXEnv := ⟨by intro en n; by_cases h : en = 1 <;> simp [exXEnv, exΓ2, Ctx.enumTy, h, Value.ty]⟩
+
+-- `(1 : : $REG[0]++ : 4)` at difficulty 2 is the third case, at difficulty 1 the first
+example : evalT exF (fun _ => none) exEnv exXEnv
+    (.diffSwitch (.litI 1) (.blank (.case (.xcrement false true ⟨true, 0, some .int⟩)
+      (.case (.litI 4) .nil)))) = .ok (.int 0) := by decide
+example : evalT exF (fun _ => none) exEnv { exXEnv with diff := 1 }
+    (.diffSwitch (.litI 1) (.blank (.case (.xcrement false true ⟨true, 0, some .int⟩)
+      (.case (.litI 4) .nil)))) = .ok (.int 1) := by decide
+example : evalT exF (fun _ => none) exEnv exXEnv (.xcrement true true ⟨true, 0, none⟩)
+    = .ok (.int 1) := by decide
+
 /-! ## 4b. Constants cannot be written to (0757655) -/
 
 /-- an assignment (any operator) whose target is a constant is rejected with
@@ -335,6 +571,59 @@ theorem assign_to_const_rejected (cfg : Cfg) (Γ : Ctx) (ρ : Option ETy) (x : N
 example : checkStmt codeCfg exΓ none (.assign ⟨false, 2, none⟩ .assign (.litS "a"))
     = .err constAssignErr := by decide
 example : checkStmt codeCfg exΓ none (.assign ⟨false, 0, none⟩ .assign (.litI 1)) = .ok () := by
+  decide
+
+/-! ## 4c. `++` / `--` on a constant is NOT rejected (open finding) -/
+
+/-- all registers and variables int, variable 0 a constant -/
+def wΓc : Ctx where
+  regTy _ := .typed .int
+  varTy _ := .typed .int
+  sig _ := none
+  isConst n := n = 0
+
+/-- The statement one wants for `++` / `--` (the rule 0757655 enforces for assignments and
+`times` clobbers): whatever the checker accepts writes to no constant. -/
+def check_rejects_const_xcrement_full : Prop :=
+  ∀ (Γ : Ctx) (e : TExpr) (t : ETy), check Γ e = .ok t → WritesOk Γ e
+
+/-- `const int v2 = ..; .. --v2 ..`: the `XcrementOp` arm of `check_expr` calls `check_var` and
+`require_int` only.  Accepted, typable, and a write to a constant.  Replayed on the CLI:
+`truanm compile -g 8` of `const int c = 3; script s { l: if (--c > 0) goto l; }` panics at
+src/llir/lower/stackless.rs:1357 (`no entry found for key`), the panic 0757655 removed for
+`c = 1;`. -/
+theorem xcrement_const_accepted (h : checksXcrementTarget = false) :
+    check wΓc (.xcrement true false ⟨false, 0, none⟩) = .ok (.value .int) ∧
+      HasType wΓc (.xcrement true false ⟨false, 0, none⟩) (.value .int) ∧
+      ¬ WritesOk wΓc (.xcrement true false ⟨false, 0, none⟩) := by
+  refine ⟨by simp [check, h, wΓc, Ctx.refTy, checkVar, readTy, requireExact], .xcrement rfl, ?_⟩
+  intro hw
+  have := hw true false ⟨false, 0, none⟩ (by simp [subsE])
+  simp [Assignable, wΓc] at this
+
+/-- decided for the code as it is, whatever the switch is set to -/
+theorem check_rejects_const_xcrement_status :
+    if checksXcrementTarget then check_rejects_const_xcrement_full
+    else ¬ check_rejects_const_xcrement_full := by
+  split
+  · rename_i hsw
+    intro Γ e t hc pre inc v hv
+    obtain ⟨t', ht'⟩ := subs_accepted Γ e t hc _ hv
+    simp only [check, hsw, if_true] at ht'
+    split at ht'
+    · rename_i ha
+      exact (checkAssignable_ok_iff Γ v).mp ha
+    · cases ht'
+    · cases ht'
+  · rename_i hsw
+    intro hfull
+    have hw := xcrement_const_accepted (by simpa using hsw)
+    exact hw.2.2 (hfull _ _ _ hw.1)
+
+/-- the same inside a program: `script s { if (--v0 > 0) goto l; }` with `v0` a constant is
+accepted by the visitor and well-typed as far as types go -/
+example : checkStmts codeCfg wΓc none (.cons (.script (.cons (.condJump
+    (.binop .gt (.xcrement true false ⟨false, 0, none⟩) (.litI 0))) .nil)) .nil) = .ok () := by
   decide
 
 /-! ## 5. Witnesses: where the property was false of the pinned code -/
